@@ -640,7 +640,10 @@ func (v *visitor) MapNode(node *ast.MapNode) reflect.Type {
 }
 
 func (v *visitor) PairNode(node *ast.PairNode) reflect.Type {
-	v.visit(node.Key)
+	// The VM builds a map[string]interface{}: a computed key is a string.
+	if k := v.visit(node.Key); k != nil && !isString(k) {
+		return v.error(node.Key, "invalid operation: cannot use %v as a map key (want string)", k)
+	}
 	v.visit(node.Value)
 	return nilType
 }
